@@ -461,6 +461,9 @@ class XMLReader(object):
                     # Special handling of cardinality
                     elif tag.endswith("_cardinality") and curr_text:
                         arguments[tag] = parse_cardinality(node.text)
+                        if arguments[tag] is None:
+                            self.warn("Cardinality '%s' in <%s> could not be parsed "
+                                      "and is ignored" % (curr_text, node.tag), node)
                     else:
                         arguments[tag] = curr_text
             else:
